@@ -52,7 +52,8 @@ def gen_scenario(rng, allow_extras):
     for i in range(n):
         ports.append({'value': rng.randint(0, 5),
                       'read_ms': rng.choice([0, 0, 0, 0, 10, 30, 60, 120]),
-                      'write_ms': rng.choice([0, 0, 10, 50, 100, 200])})
+                      'write_ms': rng.choice([0, 0, 10, 50, 100, 200]),
+                      'enable_ms': rng.choice([0, 0, 0, 120, 300])})
     script = []
     followers = {}
     n_follow = rng.randint(1, max(1, n - 1))
@@ -332,9 +333,10 @@ def gen_rich(rng):
     pending = list(order)
     sources = [i for i in range(n) if i not in followers]
     off = set()
+    faulted = set()
     for _ in range(rng.randint(2, 9)):
         r = rng.random()
-        hsrc = [i for i in sources if ports[i]['kind'].startswith('h') and not ports[i]['internal'] and i not in off]   # internal / disabled ports raise no event
+        hsrc = [i for i in sources if ports[i]['kind'].startswith('h') and not ports[i]['internal'] and i not in off and i not in faulted]   # internal / disabled / backed-off ports raise no event
         if pending and r < 0.12 and hsrc:
             # the expression is assigned by a synchronous event handler in the middle of a polling pass
             q = pending.pop()
@@ -347,6 +349,14 @@ def gen_rich(rng):
             # a virtual port that is read by others goes away and comes back under the same id
             i = rng.choice([i for i in sources if ports[i]['kind'].startswith('v') and i not in off])
             script.append(['readd', 'p%d' % i, rich_value(rng, ports[i]['kind'])])
+        elif r < 0.66 and len(sources) > 1 and [j for j in sources if ports[j]['kind'].startswith('h')]:
+            # another port fails to read, once, in the pass that sees the change of a source (that port is then left alone
+            # for the 10 s of its read-error back-off: it is not used as a trigger afterwards)
+            j = rng.choice([j for j in sources if ports[j]['kind'].startswith('h')])
+            i = rng.choice([i for i in sources if i != j])
+            faulted.add(j)
+            script.append(['set+fault', 'p%d' % i, rich_value(rng, ports[i]['kind']), 'p%d' % j,
+                           rng.choice(['OSError', 'ValueError', 'RuntimeError', 'TimeoutError'])])
         elif r < 0.9 or not sources:
             i = rng.choice(sources) if sources else 0
             script.append(['set', 'p%d' % i, rich_value(rng, ports[i]['kind'])])
@@ -367,7 +377,7 @@ def gen_rich(rng):
     # the value an in-handler assignment is triggered by must differ from what the source shows at that moment
     cur = {p['id']: p['value'] for p in ports}
     for c in script:
-        if c[0] == 'set':
+        if c[0] in ('set', 'set+fault'):
             cur[c[1]] = c[2]
         elif c[0] == 'expr-in-handler':
             old = cur.get(c[3])
@@ -377,7 +387,7 @@ def gen_rich(rng):
             cur[c[3]] = c[4]
     # 'set' values must fit the kind of the port they go to
     for c in script:
-        if c[0] in ('set', 'readd'):
+        if c[0] in ('set', 'readd', 'set+fault'):
             k = ports[int(c[1][1:])]['kind']
             v = c[2]
             if v is not None:
@@ -417,6 +427,8 @@ def run_rich_worker(scenarios):
                 script.append([c[0], c[1], c02.text_of(c[2]), c[3], w.enc(c[4])])
             elif c[0] in ('set', 'readd'):
                 script.append([c[0], c[1], w.enc(c[2])])
+            elif c[0] == 'set+fault':
+                script.append([c[0], c[1], w.enc(c[2]), c[3], c[4]])
             else:
                 script.append(c)
         wire.append({'ports': [{'id': p['id'], 'kind': p['kind'], 'value': w.enc(p['value']), 'internal': bool(p.get('internal')),
@@ -462,6 +474,9 @@ def check_rich(ctx, res, scenarios, tag):
             res['tie_failures'].append({'scenario': ws, 'note': 'typed stream: an in-handler assignment was never triggered'})
             continue
         d['typed_expr_assigned_mid_pass'] = d.get('typed_expr_assigned_mid_pass', 0) + sum(1 for c in sc['script'] if c[0] == 'expr-in-handler')
+        d['typed_read_fault_in_the_pass_of_a_change'] = d.get('typed_read_fault_in_the_pass_of_a_change', 0) + sum(1 for c in sc['script'] if c[0] == 'set+fault')
+        if r.get('passes_aborted_by_an_exception'):
+            d['typed_passes_aborted'] = d.get('typed_passes_aborted', 0) + r['passes_aborted_by_an_exception']
         d['typed_internal_ports'] = d.get('typed_internal_ports', 0) + sum(1 for p in sc['ports'] if p.get('internal'))
         for pid, kind, en, last, text, tw in r['ports']:
             d['typed_kind:' + kind] = d.get('typed_kind:' + kind, 0) + 1
